@@ -58,11 +58,15 @@ func H_C18_1_Evm() {
 		e1.EK.SetCode(e1.Ctx, h.Bytes(), c.code)
 		e1.EK.SetCodeHash(e1.Ctx, a, h)
 		for k := 0; k < 2; k++ {
-			if verif.Bool("c" + string(rune('0'+i)) + ".slot" + string(rune('0'+k))) {
-				v := verif.Uint8("c" + string(rune('0'+i)) + ".val" + string(rune('0'+k)))
+			name := "c" + string(rune('0'+i)) + ".slot" + string(rune('0'+k))
+			switch verif.Choice(name, 3) {
+			case 1: // a slot holding a non-zero value
+				v := verif.Uint8(name + ".val")
 				verif.Assume(v != 0)
 				c.slots[k] = common.BytesToHash([]byte{v})
 				e1.EK.SetState(e1.Ctx, a, slotK[k], c.slots[k].Bytes())
+			case 2: // a slot that was written and later cleared at run time: SSTORE(key, 0) keeps a 32-byte zero entry
+				e1.EK.SetState(e1.Ctx, a, slotK[k], common.Hash{}.Bytes())
 			}
 		}
 		st = append(st, c)
